@@ -57,6 +57,7 @@ func init() {
 		{"C07", "adder", props.C07adder},
 		{"C05", "adder", props.C07adder},
 		{"C17", "garble", props.C01},
+		{"C10", "narrowcounter", props.NarrowCounters("gmw", "circuit")},
 		{"C06", "retained", props.RetainedCallerSlices("ot")},
 		{"C18", "retained", props.RetainedCallerSlices("ot", "sha2pc")},
 		{"C13", "hexwidth", props.HexWidthAgreement},
